@@ -315,6 +315,20 @@ def run(c):
         npan, pr_ok, tk_ok, det = abandon_run(2)
     outcome("clientAbandons", "abandon", True, npan, probe=pr_ok, tasks=tk_ok, detail=det)
     c.extra["abandoned_requests"] = rounds
+    # 5b. descriptor exhaustion: while the process has no free file descriptor, connections arrive (accept fails with EMFILE
+    #     again and again); afterwards the waiting clients and a fresh one are served
+    esteps = [{"op": "set_key", "guid": proxylib.GUID, "key": proxylib.KEYHEX}] + probe("warm") + \
+             [{"op": "emfile_burst", "clients": 3, "hold_ms": 200, "tag": "emf"}, {"op": "sleep", "ms": 200}] + probe("emfile")
+    eev, _, _ = rig.run_rig({"steps": esteps, "drain_ms": 200}, "c13_emfile", timeout=300)
+    eb = next((e for e in eev if e["e"] == "EmfileBurst"), {})
+    if not eb.get("filled") or eb.get("connected", 0) < 3:
+        raise util.ToolError("descriptor-exhaustion scenario did not set up: %s" % eb)
+    epan = [{"location": e["location"], "message": e["message"][:160]} for e in eev if e["e"] == "Panic"]
+    eresp = [e for e in eev if e["e"] == "Response" and str(e.get("id", "")).startswith("emf_r")]
+    epr = next((e for e in eev if e["e"] == "Response" and e["id"] == "probeemfile" and e["status"] == 200), None)
+    outcome("descriptorExhaustion", "emfile", len(eresp) == 3, len(epan), probe=bool(epr), tasks=True,
+            detail={"panics": epan[:2], "waiting_clients_answered": len(eresp), "burst": eb})
+    c.extra["descriptor_exhaustion"] = eb
     # 6. the telemetry event queue is full (the logger task has not drained it: it starts late and runs once a minute) and
     #    many handlers write events at once (Robust!LogEvent with evq = QCap): every request is still answered
     seq_n, par_b, par_n = 1100, 16, 300 if not thorough else 1500
